@@ -58,11 +58,13 @@ pub fn gen_loc(rng: &mut Rng) -> LocSpec {
             if rng.chance(1, 10) {
                 deco.push_str(&" read the rules".repeat(*rng.pick(&[1093usize, 1400, 2200])));
             }
+            // plain texts that begin like something else (a network tag in brackets, a quote, a number, a formatting code)
+            let lead = if plain { *rng.pick(&["", "", "", "[Passage] ", "[", "[]", "\"q\" ", "123 ", "null", " {", "\u{a7}c", "]", "<b>"]) } else { "" };
             for mk in ["disconnect_no_target", "disconnect_timeout"] {
                 if rng.chance(9, 10) {
                     t.insert(
                         mk.to_string(),
-                        if plain { format!("{mk} in {k}{deco}") } else { format!("{{\"text\":\"{mk} in {k}{deco}\"}}") },
+                        if plain { format!("{lead}{mk} in {k}{deco}") } else { format!("{{\"text\":\"{mk} in {k}{deco}\"}}") },
                     );
                 }
             }
